@@ -98,12 +98,18 @@ theorem takeSnapshot_wsnaps (c : Cfg) (s s' : State) (h : takeSnapshot c s = som
 
 theorem yieldTail_wsnaps (c : Cfg) (t : State) (x : Nat) : (yieldTail c t x).1.wsnaps = t.wsnaps := by
   unfold yieldTail
+  have hd := snapshotDue_eq c t
+  generalize snapshotDue c t = d at hd
   split
-  · split
-    · rename_i s' h
-      exact takeSnapshot_wsnaps c t s' h
-    · rfl
   · rfl
+  · dsimp only
+    split
+    · split
+      · rename_i s' h
+        simp only
+        rw [takeSnapshot_wsnaps c d.1 s' h, hd]
+      · simp only; rw [hd]
+    · simp only; rw [hd]
 
 theorem yieldItem_frame (c : Cfg) (s : State) (r : Res) (x : Nat) : Frame s (yieldItem c s r x).1 := by
   have hp := yieldItem_sameProto c s r x
